@@ -1454,6 +1454,149 @@ def m_vec_dedup(I, args, callee):
     return UNIT
 
 
+def _items(I, it):
+    itv = I.deref(it) if isinstance(it, Ref) else it
+    if isinstance(itv, Agg) and itv.kind in ('PyIter', 'SliceIter', 'Range'):
+        return iter_items(I, itv)
+    return iter_items(I, m_into_iter_vec(I, [itv], ''))
+
+
+def m_iter_filter_map(I, args, callee):
+    out = []
+    for x in _items(I, args[0]):
+        r = closure_call(I, args[1], [x])
+        if r.variant == 'Some':
+            out.append(r.fields[0])
+    return new_iter(out)
+
+
+def m_iter_filter(I, args, callee):
+    out = []
+    for x in _items(I, args[0]):
+        if truthy(I, closure_call(I, args[1], [Ref(Cell(x), ())])):
+            out.append(x)
+    return new_iter(out)
+
+
+def m_iter_all(I, args, callee):
+    for x in _items(I, args[0]):
+        if not truthy(I, closure_call(I, args[1], [x])):
+            return BoolV(False)
+    return BoolV(True)
+
+
+def m_iter_find_map(I, args, callee):
+    for x in _items(I, args[0]):
+        r = closure_call(I, args[1], [x])
+        if r.variant == 'Some':
+            return r
+    return none()
+
+
+def m_iter_cloned(I, args, callee):
+    return new_iter([deep_copy(I.deref(x)) if isinstance(x, Ref) else x for x in _items(I, args[0])])
+
+
+def m_iter_rev(I, args, callee):
+    return new_iter(list(reversed(_items(I, args[0]))))
+
+
+def m_iter_skip(I, args, callee):
+    return new_iter(_items(I, args[0])[I.concretize(args[1], 'skip'):])
+
+
+def m_iter_count(I, args, callee):
+    return usize(len(_items(I, args[0])))
+
+
+def m_iter_last(I, args, callee):
+    xs = _items(I, args[0])
+    return some(xs[-1]) if xs else none()
+
+
+def m_iter_zip(I, args, callee):
+    a, b = _items(I, args[0]), _items(I, args[1])
+    return new_iter([Agg('tuple', [x, y]) for x, y in zip(a, b)])
+
+
+def m_iter_for_each(I, args, callee):
+    for x in _items(I, args[0]):
+        closure_call(I, args[1], [x])
+    return UNIT
+
+
+def m_iter_fold(I, args, callee):
+    acc = args[1]
+    for x in _items(I, args[0]):
+        acc = closure_call(I, args[2], [acc, x])
+    return acc
+
+
+def m_iter_nth(I, args, callee):
+    itv = I.deref(args[0])
+    xs = iter_items(I, itv)
+    n = I.concretize(args[1], 'nth')
+    if n < len(xs):
+        itv.fields[1] = IntV(64, itv.fields[1].v + n + 1)
+        return some(xs[n])
+    return none()
+
+
+def m_option_map_or(I, args, callee):
+    o, d, clo = args
+    if o.variant in ('None', 'Err'):
+        return d
+    return closure_call(I, clo, [o.fields[0]])
+
+
+def m_option_is_some_and(I, args, callee):
+    o, clo = args
+    if o.variant in ('None', 'Err'):
+        return BoolV(False)
+    return closure_call(I, clo, [o.fields[0]])
+
+
+def m_option_or(I, args, callee):
+    return args[0] if args[0].variant == 'Some' else args[1]
+
+
+def m_option_ok_or(I, args, callee):
+    o, e = args
+    return ok(o.fields[0]) if o.variant == 'Some' else err(e)
+
+
+def m_vec_insert(I, args, callee):
+    v = I.deref(args[0])
+    lst = I.container_list(v)
+    i = I.concretize(args[1], 'insert index')
+    if i > len(lst):
+        I.fail('insert-oob', 'Vec::insert index out of bounds')
+    lst.insert(i, args[2])
+    return UNIT
+
+
+def m_vec_remove(I, args, callee):
+    v = I.deref(args[0])
+    lst = I.container_list(v)
+    i = I.conc_index(args[1], len(lst), 'Vec::remove index')
+    return lst.pop(i)
+
+
+def m_vec_retain(I, args, callee):
+    v = I.deref(args[0])
+    lst = I.container_list(v)
+    keep = [x for x in lst if truthy(I, closure_call(I, args[1], [Ref(Cell(x), ())]))]
+    lst[:] = keep
+    return UNIT
+
+
+def m_vec_append(I, args, callee):
+    a, b = I.deref(args[0]), I.deref(args[1])
+    I.container_list(a).extend(I.container_list(b))
+    del I.container_list(b)[:]
+    return UNIT
+
+
 def m_slice_windows(I, args, callee):
     sl = as_slice(I, args[0])
     n = I.concretize(args[1], 'windows size')
@@ -1483,6 +1626,29 @@ def m_path_display(I, args, callee):
 
 
 MODELS = [
+    (r'^<.* as Iterator>::filter_map::', m_iter_filter_map),
+    (r'^<.* as Iterator>::filter::', m_iter_filter),
+    (r'^<.* as Iterator>::all::', m_iter_all),
+    (r'^<.* as Iterator>::find_map::', m_iter_find_map),
+    (r'^<.* as Iterator>::(cloned|copied)::', m_iter_cloned),
+    (r'^<.* as Iterator>::rev$', m_iter_rev),
+    (r'^<.* as Iterator>::skip$', m_iter_skip),
+    (r'^<.* as Iterator>::count$', m_iter_count),
+    (r'^<.* as Iterator>::last$', m_iter_last),
+    (r'^<.* as Iterator>::zip::', m_iter_zip),
+    (r'^<.* as Iterator>::for_each::', m_iter_for_each),
+    (r'^<.* as Iterator>::fold::', m_iter_fold),
+    (r'^<.* as Iterator>::nth$', m_iter_nth),
+    (r'^<(std::iter::)?(FilterMap|Filter|Cloned|Copied|Rev|Skip|Zip)<.*> as Iterator>::next$', m_pyiter_next),
+    (r'^<(std::iter::)?(FilterMap|Filter|Cloned|Copied|Rev|Skip|Zip)<.*> as IntoIterator>::into_iter$', m_identity),
+    (r'^(Option|Result)::<.*>::map_or::', m_option_map_or),
+    (r'^(Option|Result)::<.*>::(is_some_and|is_ok_and)::', m_option_is_some_and),
+    (r'^Option::<.*>::or$', m_option_or),
+    (r'^Option::<.*>::ok_or$', m_option_ok_or),
+    (r'^Vec::<.*>::insert$', m_vec_insert),
+    (r'^Vec::<.*>::remove$', m_vec_remove),
+    (r'^Vec::<.*>::retain::', m_vec_retain),
+    (r'^Vec::<.*>::append$', m_vec_append),
     (r'^(core::)?slice::<impl \[.*\]>::windows$', m_slice_windows),
     (r'^<(std::slice::)?Windows<.*> as Iterator>::(next)$', m_pyiter_next),
     (r'^(core::)?slice::<impl \[.*\]>::first$', m_slice_first),
